@@ -58,7 +58,7 @@ def main():
     for d in sorted(os.listdir(sd)):
         meta = json.load(open(os.path.join(sd, d, "meta.json")))
         patch = os.path.join(sd, d, "patch.diff")
-        props = [meta["property"]]
+        props = [meta.get("selftest_property", meta["property"])]
         cases.append(("seeded/" + d, (lambda wt, p=patch: subprocess.run(["git", "-C", wt, "apply", p], capture_output=True).returncode == 0), props))
     for c, props in FIXES.items():
         cases.append(("revert-" + c, (lambda wt, c=c: subprocess.run(["git", "-C", wt, "revert", "-n", c], capture_output=True).returncode == 0), props))
